@@ -4,6 +4,9 @@ confirm each myself in the scratch worktree <src>/<P>/wt (tools/confirm_seed.py)
 usage: tools/import_round.py <round> <src> <P> [<P> ...]"""
 import json, os, shutil, subprocess, sys
 rnd, src, props = int(sys.argv[1]), sys.argv[2], sys.argv[3:]
+STEER = {3: "a note asking for breadth of mechanism and quiet effects", 4: "a note assigning an angle to each change (aws-lc-rs-only code, import paths, rare variants, issuer-signed artefacts, helper impls, size/boundary handling)",
+         5: "a note giving each change a maintainer's story (de-duplication, performance/caching, API robustness, idiom clean-up, feature addition with a sibling not updated) and asking for triggers that combine two conditions"}
+ORIGIN = "written by an independent sub-agent that was given only the property record (statement, scope, anchors), %s, and its own scratch worktree of /repo (nothing from /verif)" % STEER.get(rnd, "a steer derived from the property text")
 for P in props:
     wt = os.path.join(src, P, "wt")
     for x in sorted(os.listdir(os.path.join(src, P, "out"))):
@@ -24,7 +27,7 @@ for P in props:
         meta = {
             "id": sid, "property": P, "round": rnd,
             "summary": m.get("summary"), "needs": m.get("needs"), "files": m.get("files"),
-            "origin": "written by an independent sub-agent that was given only the property text (statement, scope, anchors), a note asking for breadth of mechanism and quiet effects, and its own scratch worktree of /repo (nothing from /verif)",
+            "origin": ORIGIN,
             "rebased": False,
             "demonstration": {"file": demo, "place_at": c.get("demo_dest"), "command": c.get("demo_cmd")},
             "confirmed_by_me": {
